@@ -238,6 +238,19 @@ def run_property(chk, prop, note=None):
         proof_ok, plog = vlib.standard_proof_stage(chk, prop, names)
     else:
         chk.coverage["theorems"] = "Properties/%s.v not present: no theorem is claimed by this run" % prop
+    # The model treats every cache operation as atomic (request granularity).
+    # That is adequate for concurrent use only while every persistence call
+    # made inside cache.Get/Set/Delete/compact/PurgeSessions happens under the
+    # cache mutex: an obligation over Gen/Access.v, regenerated from the source.
+    gran_ok = True
+    gok, glog, _ = vlib.coq_build(["Properties/Granularity"])
+    gres = None
+    if gok:
+        gres, graw = vlib.print_assumptions("Properties.Granularity", ["cache_ops_atomic", "cache_ops_covered"])
+    for tname in ("cache_ops_atomic", "cache_ops_covered"):
+        good = bool(gres) and gres.get(tname) == "Closed under the global context"
+        chk.oblige("granularity: " + tname + " (cache operations are atomic under the cache mutex; Gen/Access.v)", good)
+        gran_ok = gran_ok and good
     b = bundle(chk.tier, chk.seed)
     if "harness_failed" in b:
         chk.oblige("harness builds against the current tree", False)
@@ -336,6 +349,9 @@ def run_property(chk, prop, note=None):
     elif nviol == 0 and not proof_ok:
         chk.violation({"property": prop, "no_longer_checks": "theorems of Properties/%s.v" % prop,
                        "obligations": chk.obligations, "log": plog[-3000:]}, no_input=True)
+    elif nviol == 0 and not gran_ok:
+        chk.violation({"property": prop, "no_longer_checks": "Properties/Granularity.v: cache_ops_atomic over the regenerated Gen/Access.v - a persistence call inside a cache operation is no longer made under the cache mutex, so the request-granularity model (and every theorem about it) no longer covers concurrent requests; the request-granularity histories explored show no failure",
+                       "log": glog[-2500:]}, no_input=True)
     return chk.finish(
         level="proof" if names else "translation_validation",
         trusted_base=["Python oracles (checks/oracles.py) that turn real traces into violations; they state the property on observables and are not part of any proof"],
